@@ -115,7 +115,7 @@ func c07Configs(tier string) []c07cfg {
 		}
 	}
 	// a held request is released by resume / stop and the next command follows at once
-	for _, s := range []string{"PRS", "PRP", "PRp", "PSP", "PSR"} {
+	for _, s := range []string{"PRS", "PRP", "PSP"} {
 		cfgs = append(cfgs, c07cfg{seq: s, gap: 1200 * time.Millisecond, clients: []c07client{{"get", 600 * time.Millisecond}, {"get", 600 * time.Millisecond}}, deep: true, tightTail: true})
 	}
 	// the next command lands at the very instant at which the hold limit of a request held since the pause expires
@@ -427,6 +427,15 @@ func c07Scenario(c c07cfg) *Scenario {
 								released := k >= 0 && k-1 < len(gcmds) && gcmds[k-1].Start < at
 								if r.End == at && !released {
 									pred["504"] = true
+								}
+							}
+							// released by command k and held again by a pause issued at the same instant (before the
+							// woken request got anywhere): that hold runs from the later pause
+							if k >= 1 && k-1 < len(gcmds) {
+								for x := k + 1; x <= jmax; x++ {
+									if states[x].kind == "paused" && x-1 < len(gcmds) && gcmds[x-1].Start == gcmds[k-1].Start && r.End == gcmds[x-1].Start+states[x].limit {
+										pred["504"] = true
+									}
 								}
 							}
 						}
